@@ -69,9 +69,12 @@ int Futex::wake_all() noexcept {
   }
   // Resume when remove nodes and get their ownership successfully.
   int waked = 0;
-  for (auto node = head; node != nullptr; node = node->next) {
+  for (auto node = head; node != nullptr;) {
+    // finish_released gives the slot back, it can be reused at once
+    auto next = node->next;
     node->promise->resume(node->handle);
     box.finish_released(node->id);
+    node = next;
     waked++;
   }
   return waked;
